@@ -1,4 +1,5 @@
-CONSTANT Keys = {1, 2, 3}
+\* Mode M for C28 (the driver checks/C28.py writes its own variants of this file per tier).
+CONSTANT Keys = {1, 2}
 CONSTANT NReq = 3
 CONSTANT MaxBatches = {1, 2, 3}
 CONSTANT Modes = {"none", "map", "lru1", "lru2", "mapoff"}
@@ -6,10 +7,10 @@ CONSTANT Prefeds = {{}, {1}}
 CONSTANT HoleSets = {{}}
 CONSTANT Errs = TRUE
 CONSTANT Cancels = TRUE
-INIT Init
-NEXT Next
+SPECIFICATION Spec
 INVARIANT ResultsExact
 INVARIANT EveryKeyLoaded
 INVARIANT NoDuplicateKeyInBatch
 INVARIANT BatchBound
 INVARIANT TimerCoversPending
+PROPERTY Completes
